@@ -49,7 +49,36 @@ func perm(r *Rng, n int) []int64 {
 	}
 	return p
 }
+// smallMode: directed stream "small" (main.go): vectors of length 2..5 holding 1..3 entries, so
+// that the AVL index is a tree of one to three nodes (root deletion with one child, a root that
+// is the smaller of two entries), zero writes to stored positions followed by an iteration (skip()
+// deletes the key), copies (Clone / Append* / Slice) that are iterated / sorted / reset afterwards
+// (Reset through shared cells), Sort after At() created a stored zero
+var smallMode = false
+
+func genNewSmall(r *Rng) Op {
+	n := r.Range(2, 5)
+	m := r.Range(1, 3)
+	if m > n {
+		m = n
+	}
+	p := perm(r, n)
+	var ks, xs []int64
+	for i := 0; i < m; i++ {
+		ks = append(ks, p[i])
+		x := int64(r.Range(1, 8))
+		if r.Intn(4) == 0 {
+			x = -x
+		}
+		xs = append(xs, x)
+	}
+	return Op{Op: "New", L: ks, L2: xs, I: int64(n)}
+}
+
 func genNew(r *Rng, bad bool) Op {
+	if smallMode && !bad {
+		return genNewSmall(r)
+	}
 	n := r.Range(0, 12)
 	if r.Intn(8) == 0 {
 		n = r.Range(0, 2)
@@ -195,7 +224,11 @@ func genCase(r *Rng, tn string, malformed bool, cw *CaseWriter) (Case, genStats)
 			if o.Bad {
 				cw.Count("malformed")
 			}
-			cw.Count([]string{"outcome:ok", "outcome:panic", "outcome:error"}[k])
+			if k == K_HANG {
+				cw.Count("outcome:hang")
+			} else {
+				cw.Count([]string{"outcome:ok", "outcome:panic", "outcome:error"}[k])
+			}
 		}
 		if o.Bad {
 			st.bad++
@@ -220,7 +253,7 @@ func genCase(r *Rng, tn string, malformed bool, cw *CaseWriter) (Case, genStats)
 		emit(genNew(r, false))
 	}
 	n := r.Range(10, 40)
-	for k := 0; k < n; k++ {
+	for k := 0; k < n && !w.Hung; k++ {
 		if len(w.V) == 0 {
 			emit(genNew(r, false))
 			continue
@@ -248,6 +281,10 @@ func genCase(r *Rng, tn string, malformed bool, cw *CaseWriter) (Case, genStats)
 		}
 		//            0  1   2  3  4  5  6  7  8  9 10 11 12 13 14 15 16 17 18 19 20 21 22 23
 		wts := []int{1, 3, 14, 3, 5, 2, 3, 5, 7, 6, 5, 5, 3, 2, 2, 3, 0, 2, 2, 5, 3, 2, 2, 3, 2}
+		if smallMode {
+			//             0  1   2  3  4  5  6  7  8  9 10 11 12 13 14 15 16 17 18 19 20 21 22 23 24
+			wts = []int{1, 3, 12, 1, 2, 1, 4, 3, 2, 1, 5, 5, 4, 3, 2, 1, 0, 1, 1, 9, 3, 2, 7, 2, 1}
+		}
 		if len(w.V) >= maxVecs {
 			wts[0], wts[11], wts[12], wts[13], wts[14], wts[22] = 0, 0, 0, 0, 0, 0
 		}
@@ -267,6 +304,10 @@ func genCase(r *Rng, tn string, malformed bool, cw *CaseWriter) (Case, genStats)
 		case 2:
 			if bad || d <= 0 {
 				emit(Op{Op: "SetAt", T: t, I: badIdx(), X: val(r), Bad: true})
+			} else if smallMode && len(obs[t].Keys) > 0 && r.Bool() {
+				// zero write to a stored position: the next iteration deletes the key from the index
+				emit(Op{Op: "SetAt", T: t, I: obs[t].Keys[r.Intn(len(obs[t].Keys))], X: 0})
+				st.mut++
 			} else {
 				emit(Op{Op: "SetAt", T: t, I: idx(), X: val(r)})
 				st.mut++
@@ -426,7 +467,7 @@ func genCase(r *Rng, tn string, malformed bool, cw *CaseWriter) (Case, genStats)
 		}
 	}
 	// final full iteration of every vector (mutating: skip() runs on the vector itself)
-	for t := range w.V {
+	for t := 0; t < len(w.V) && !w.Hung; t++ {
 		emit(Op{Op: "Iterate", T: t})
 	}
 	return c, st
